@@ -6,3 +6,5 @@
              (= (toUpper "and") "AND") (= (toUpper "or") "OR") (= (toUpper "not") "NOT") (= (toUpper "list") "LIST")
              (= (toUpper "basic") "BASIC") (= (toUpper "condition") "CONDITION"))) ;;@trusted strings.ToLower / strings.ToUpper on the ASCII operator words
 (assert (forall ((c Int)) (! (=> (and (<= 0 c) (< c 128)) (= (isUpperRune c) (and (<= 65 c) (<= c 90)))) :pattern ((isUpperRune c))))) ;;@trusted unicode.IsUpper on ASCII
+(assert (and (= (toUpper "AND") "AND") (= (toUpper "OR") "OR") (= (toUpper "NOT") "NOT") (= (toUpper "LIST") "LIST")
+             (= (toUpper "BASIC") "BASIC") (= (toUpper "CONDITION") "CONDITION"))) ;;@trusted strings.ToUpper is the identity on upper-case ASCII words
